@@ -123,6 +123,17 @@ def build_pool(seed, idx):
         except Exception:  # pylint: disable=broad-except
             continue
         (c if isinstance(r, circ.CircRNAModel) else v).append(r)
+    # fragments listed in descending gene coordinates (negative OFFSET), as parseCIRCexplorer lists them for some
+    # genes: the line carries the order, and INTRON indexes into it
+    import copy
+    for r in list(c):
+        if len(r.fragments) >= 2 and rng.random() < 0.6:
+            r2 = copy.deepcopy(r)
+            r2.fragments.reverse()
+            n = len(r2.fragments)
+            r2.intron = [n + 1 - i for i in r2.intron]
+            r2.id = r.id + '-DESC'
+            c.append(r2)
     h = harvested()
     use_h = rng.random() < 0.6
     if use_h:
@@ -357,7 +368,10 @@ class Sim:
         text = before.decode()
         lines = text.splitlines(keepends=True)
         body = [i for i, l in enumerate(lines) if not l.startswith('#')]
-        head = [i for i, l in enumerate(lines) if l.startswith('##')]
+        # (the ##parser= line carries the file type -- circRNA or variant records -- so flipping a byte in it turns the
+        # file into another kind of GVF; found by the thorough tier as a false alarm: the scan kept parsing circRNA
+        # records while the product, rightly, parsed variant records.  That line is therefore not edited.)
+        head = [i for i, l in enumerate(lines) if l.startswith('##') and not l.startswith('##parser=')]
         expect_reject = None
         if kind == 'append':
             src = self.lines['c' if is_circ else 'v']
